@@ -39,8 +39,11 @@ static std::string name(const Stream& s) {
     return os.str();
 }
 
+static bool g_acktrack = false;
+
 static void on_new(Stream& s) {
     g_ev.push_back("[1 " + name(s) + "]");
+    if (g_acktrack) s.enable_ack_tracking();
     s.client_data_callback([](Stream& st) { g_ev.push_back("[3 " + name(st) + " 1 " + hex(st.client_payload()) + "]"); });
     s.server_data_callback([](Stream& st) { g_ev.push_back("[3 " + name(st) + " 0 " + hex(st.server_payload()) + "]"); });
     s.client_out_of_order_callback([](Stream& st, uint32_t seq, const Stream::payload_type& pl) {
@@ -60,7 +63,9 @@ static void run(const Script& s) {
         std::vector<std::string> t = split(line);
         if (t.empty()) continue;
         try {
-            if (t[0] == "cfg" && t.size() == 5) {
+            if (t[0] == "cfg" && (t.size() == 5 || t.size() == 6)) {
+                // optional 6th token: every new stream gets enable_ack_tracking() (ACK / SACK bookkeeping; only its termination reason is observable here)
+                g_acktrack = t.size() == 6 && num(t[5]) != 0;
                 fo.reset(new StreamFollower());
                 fo->new_stream_callback(on_new);
                 fo->stream_termination_callback(on_term);
@@ -73,12 +78,18 @@ static void run(const Script& s) {
             } else if (t[0] == "defaults") {
                 StreamFollower d;
                 printf("%lld %llu %llu\n", (long long)d.stream_keep_alive_.count(), (unsigned long long)d.max_buffered_chunks_, (unsigned long long)d.max_buffered_bytes_);
-            } else if (t[0] == "pkt" && fo && t.size() == 10) {
+            } else if (t[0] == "pkt" && fo && t.size() >= 10) {
                 bytes src = unhex(t[1]), dst = unhex(t[2]);
                 TCP tcp((uint16_t)num(t[4]), (uint16_t)num(t[3]));
                 tcp.flags((small_uint<12>::repr_type)(num(t[5]) & 0xfff));
                 tcp.seq((uint32_t)num(t[6]));
                 tcp.ack_seq((uint32_t)num(t[7]));
+                // optional trailing tokens "[ l r l r ... ]": the edges of a SACK option
+                if (t.size() > 10) {
+                    TCP::sack_type edges;
+                    for (size_t i = 10; i < t.size(); ++i) if (t[i] != "[" && t[i] != "]") edges.push_back((uint32_t)num(t[i]));
+                    if (!edges.empty()) tcp.sack(edges);
+                }
                 std::unique_ptr<PDU> pdu;
                 if (src.size() == 16) {
                     pdu.reset(new IPv6(IPv6Address(dst.data()), IPv6Address(src.data())));
